@@ -11,6 +11,9 @@ from mc import cliworld as CW
 from mc import e2
 from mc import world as W
 
+from mc import localchecks
+from mc.localchecks import expand as local_expand  # noqa: F401 (looked up by name in the workers)
+
 ID = "C05"
 LEVEL = "model_checking"
 
@@ -198,6 +201,8 @@ def run(ctx):
         w0 = CW.init_world(wfname, backend, hashing=hashing, fresh=fresh, accounting=acct)
         lv = e2.bfs(ctx, me, "expand", [w0], depth, chunk=2, meta=meta, alphabet=alphabet_for(wfname))
         done.append(dict(meta, depth=depth, levels_completed=lv))
+    local_done = localchecks.run_local(ctx, me, ID, [("fork", 3)] if ctx.tier == "quick" else [("fork", 5), ("twocomp", 4)])
+    ctx.notes.setdefault("coverage_extra", {})["local_backend"] = local_done
     ctx.traces_validated = ctx.acc.extra["transitions"]
     ctx.rule = ("state = canonical world (file ranks+contents, tracked-job descriptors, hash records, logs); in each state every selection x "
                 "{status, run -d, run} and the filter/format alphabet are executed on the real CLI; non-trivial = distinct canonical state")
@@ -208,6 +213,8 @@ def run(ctx):
 
 
 def replay(case):
+    if case.get("kind") == "local":
+        return localchecks.replay(case)
     from mc.runner import Acc
 
     meta, trace = case["meta"], case["trace"]
